@@ -4,6 +4,7 @@ import (
 	"encoding/json"
 	"fmt"
 	"os"
+	"path/filepath"
 	"sort"
 	"strings"
 	"testing"
@@ -689,7 +690,12 @@ func TestC10Generated(t *testing.T) {
 		}
 		c.Driver = "inproc"
 		ev.Eval(id)
+		// journal: a stack overflow or another fatal runtime error in an analyzer cannot be
+		// recovered in-process and takes this process down; the case in flight is left on disk
+		// (as a case for the killable standalone binary) so that check can replay and confirm it
+		inflight := c10Journal(c)
 		why := c10Check(c)
+		os.Remove(inflight)
 		if strings.HasPrefix(why, "GENERATOR-BUG") {
 			if kind == "skeleton" {
 				// generated comment text broke compilation: not a judged case
@@ -876,4 +882,15 @@ func init() {
 		// names packages, seed and round - re-run the corpus test with that seed
 		return ""
 	}
+}
+
+// c10Journal writes the case about to be analysed in-process as a replay file
+// for the external binary; the caller removes it when the analysis returned.
+func c10Journal(c c10Case) string {
+	c.Driver = "binary"
+	raw, _ := json.Marshal(c)
+	b, _ := json.Marshal(Envelope{Property: "C10", Kind: "c10", Summary: "case in flight when the test process died", Data: raw})
+	path := filepath.Join(ev.ReplayDir(), fmt.Sprintf("C10-inflight-%d.json", os.Getpid()))
+	os.WriteFile(path, b, 0o644)
+	return path
 }
